@@ -596,8 +596,35 @@ def desugar_family(prog, rep):
                 verdict = False
                 rep.fail("D-NUM", "%s|D-NUM|add" % root, "`+` on operands other than a parsed component and a small constant: %r + %r" % (o[2], o[3]))
         rep.path(("desugar", path_sig(it)))
-    for fn, envs in (("range::primitive", [{"op": o} for o in ("GreaterThanEquals", "GreaterThan", "Exact", "LessThanEquals", "LessThan")]),
-                     ("range::partial", [{}]), ("range::tilde", [{"gt": False}, {"gt": True}]), ("range::caret", [{}])):
+    def closure_envs(tix, acc=None, depth=0):
+        """what the argument of a desugaring closure is made of: a Partial, possibly with an Operation / an Option flag"""
+        acc = acc if acc is not None else set()
+        t = prog.types[tix]
+        if depth < 4:
+            if t.get("k") == "tuple":
+                for x in t["tys"]:
+                    closure_envs(x, acc, depth + 1)
+            elif t.get("k") == "adt":
+                acc.add(t["adt"])
+        return acc
+    forms = []
+    for fn in sorted(g):
+        # every grammar function whose outermost `map` takes a Partial (with an Operation, with an optional flag): found
+        # by the type of the closure's argument, not by the function's name
+        clo = D.top_map_closure(g, fn)
+        if clo is None or not prog.has_body(clo.key) or len(prog.body(clo.key)["locals"]) < 3:
+            continue
+        made_of = closure_envs(prog.body(clo.key)["locals"][2])
+        if D.PARTIAL not in made_of or not made_of <= {D.PARTIAL, D.OPERATION, "std::option::Option"}:
+            continue
+        if D.OPERATION in made_of:
+            envs = [{"op": v["name"]} for v in prog.adts[D.OPERATION]["variants"]]
+        elif "std::option::Option" in made_of:
+            envs = [{"gt": False}, {"gt": True}]
+        else:
+            envs = [{}]
+        forms.append((fn, envs))
+    for fn, envs in forms:
         clo = D.top_map_closure(g, fn)
         if clo is None:
             continue
